@@ -120,6 +120,9 @@ func (t *taintCtx) taintedRaw(fn *ssa.Function, v ssa.Value, mask string) bool {
 	case *ssa.TypeAssert:
 		return t.tainted(fn, x.X, mask)
 	case *ssa.Extract:
+		if call, ok := x.Tuple.(*ssa.Call); ok {
+			return t.callTaintedIdx(fn, call, mask, x.Index)
+		}
 		return t.tainted(fn, x.Tuple, mask)
 	case *ssa.Slice:
 		return t.tainted(fn, x.X, mask)
@@ -211,6 +214,11 @@ func (t *taintCtx) fieldTainted(f *types.Var) bool {
 }
 
 func (t *taintCtx) callTainted(fn *ssa.Function, call *ssa.Call, mask string) bool {
+	return t.callTaintedIdx(fn, call, mask, -1)
+}
+
+// callTaintedIdx: is result idx of the call tainted (idx < 0: any result)?
+func (t *taintCtx) callTaintedIdx(fn *ssa.Function, call *ssa.Call, mask string, idx int) bool {
 	cc := &call.Call
 	if b, ok := cc.Value.(*ssa.Builtin); ok {
 		switch b.Name() {
@@ -241,7 +249,10 @@ func (t *taintCtx) callTainted(fn *ssa.Function, call *ssa.Call, mask string) bo
 		m := t.maskFor(fn, call, callee, mask)
 		t.enqueue(callee, m)
 		for _, ret := range returnsOf(callee) {
-			for _, rv := range results(ret) {
+			for i, rv := range results(ret) {
+				if idx >= 0 && i != idx {
+					continue
+				}
 				if t.tainted(callee, rv, m) {
 					return true
 				}
@@ -335,6 +346,10 @@ func csvQuoterShape(c *Ctx, f *ssa.Function, in *ssa.Parameter) string {
 			}
 		}
 		return ""
+	}
+	// builder form: q.WriteByte('"'); for each byte { q.WriteByte(b); if b == '"' { q.WriteByte('"') } }; q.WriteByte('"'); q.String()
+	if d := csvQuoterBuilderShape(c, f, in, rv); d != "" {
+		return d
 	}
 	// byte-loop form: result = string(b[:j+1])
 	cv, ok := rv.(*ssa.Convert)
@@ -563,4 +578,131 @@ func (t *taintCtx) run(rule string) (sinks int, taintedSources int) {
 		})
 	}
 	return sinks, taintedSources
+}
+
+// csvQuoterBuilderShape recognises the all-fields quoter written with a strings.Builder / bytes.Buffer.
+func csvQuoterBuilderShape(c *Ctx, f *ssa.Function, in *ssa.Parameter, rv ssa.Value) string {
+	sc, ok := rv.(*ssa.Call)
+	if !ok || sc.Call.StaticCallee() == nil || sc.Call.StaticCallee().Name() != "String" || len(sc.Call.Args) != 1 {
+		return ""
+	}
+	if pp := funcPkgPath(sc.Call.StaticCallee()); pp != "strings" && pp != "bytes" {
+		return ""
+	}
+	q := sc.Call.Args[0] // the builder (address of a local)
+	root, _ := addrPath(q)
+	if _, isAl := root.(*ssa.Alloc); !isAl {
+		return ""
+	}
+	isQuote := func(v ssa.Value) bool {
+		if k, ok := constInt(v); ok && k == '"' {
+			return true
+		}
+		s, ok := constString(v)
+		return ok && s == "\""
+	}
+	// the bytes of the input, one by one: in[i], or element i of []byte(in)
+	curByte := func(v ssa.Value) ssa.Value { // returns the index
+		switch x := v.(type) {
+		case *ssa.Lookup:
+			if x.X == ssa.Value(in) {
+				return x.Index
+			}
+		case *ssa.UnOp:
+			if ia, ok := x.X.(*ssa.IndexAddr); ok {
+				if cv, isCv := ia.X.(*ssa.Convert); isCv && cv.X == ssa.Value(in) {
+					if sl, isSl := cv.Type().Underlying().(*types.Slice); isSl {
+						if b, isB := sl.Elem().Underlying().(*types.Basic); isB && b.Kind() == types.Uint8 {
+							return ia.Index
+						}
+					}
+				}
+			}
+		}
+		return nil
+	}
+	var open, closeQ, copyAll, dbl int
+	other := false
+	var idxV ssa.Value
+	var bytesSlice ssa.Value
+	for _, b := range f.Blocks {
+		for _, inst := range b.Instrs {
+			call, isCall := inst.(*ssa.Call)
+			if !isCall || call.Call.StaticCallee() == nil || len(call.Call.Args) == 0 {
+				continue
+			}
+			if r2, _ := addrPath(call.Call.Args[0]); r2 != root {
+				continue
+			}
+			switch call.Call.StaticCallee().Name() {
+			case "Grow", "String", "Len", "Cap":
+				continue
+			case "WriteByte", "WriteString", "WriteRune":
+			default:
+				other = true
+				continue
+			}
+			arg := call.Call.Args[1]
+			depth := loopDepth(b)
+			switch {
+			case depth == 0 && isQuote(arg):
+				// before or after the loop
+				reachesLoop := false
+				for bb := range blockReach(b, nil) {
+					if bb != b && loopDepth(bb) > 0 {
+						reachesLoop = true
+					}
+				}
+				if reachesLoop {
+					open++
+				} else {
+					closeQ++
+				}
+			case depth == 1 && curByte(arg) != nil && call.Call.StaticCallee().Name() == "WriteByte":
+				if condInsideLoop(b) {
+					other = true
+				}
+				copyAll++
+				idxV = curByte(arg)
+				if u, isU := arg.(*ssa.UnOp); isU {
+					bytesSlice = u.X.(*ssa.IndexAddr).X
+				}
+			case depth == 1 && isQuote(arg):
+				// only under (current byte == '"')
+				hit, only := false, true
+				hdr := innermostLoopHeader(b)
+				for _, cf := range dominatingConds(b) {
+					if cf.If.Block() == hdr || !hdr.Dominates(cf.If.Block()) {
+						continue
+					}
+					if bo, ok := cf.Cond.(*ssa.BinOp); ok && bo.Op == token.EQL && cf.Val && ((curByte(bo.X) != nil && isQuote(bo.Y)) || (curByte(bo.Y) != nil && isQuote(bo.X))) {
+						hit = true
+						continue
+					}
+					only = false
+				}
+				if hit && only {
+					dbl++
+				} else {
+					other = true
+				}
+			default:
+				other = true
+			}
+		}
+	}
+	if other || open != 1 || closeQ != 1 || copyAll != 1 || dbl != 1 || idxV == nil {
+		return ""
+	}
+	// the loop visits every byte
+	full := false
+	if bytesSlice != nil {
+		full = isFullRangeIndex(c, f, idxV, bytesSlice)
+	} else {
+		full = isFullRangeIndex(c, f, idxV, in)
+	}
+	if !full {
+		return ""
+	}
+	return "builder: opening quote, every input byte copied, each quote byte doubled, closing quote"
 }
